@@ -200,11 +200,11 @@ func atomsFor(rows []StoredRow, tok refmodel.Tokenizer) []atom {
 func bloomLeaves() []bs.BloomExpression {
 	return []bs.BloomExpression{
 		bs.Field("a"), bs.Token("x"), bs.FieldToken("b", "y"),
-		{ExpressionType: bs.BloomExpressionCondition},                                                      // nil condition = true
+		{ExpressionType: bs.BloomExpressionCondition},                                                           // nil condition = true
 		{ExpressionType: bs.BloomExpressionCondition, Condition: &bs.BloomCondition{Type: "WEIRD", Field: "a"}}, // unknown condition = false
-		{ExpressionType: bs.BloomExpressionAnd},                                                            // empty AND = true
-		{ExpressionType: bs.BloomExpressionOr},                                                             // empty OR = false
-		{ExpressionType: "XOR", Children: []bs.BloomExpression{bs.Field("a")}},                              // unknown node = false
+		{ExpressionType: bs.BloomExpressionAnd},                                                                 // empty AND = true
+		{ExpressionType: bs.BloomExpressionOr},                                                                  // empty OR = false
+		{ExpressionType: "XOR", Children: []bs.BloomExpression{bs.Field("a")}},                                  // unknown node = false
 	}
 }
 
